@@ -123,7 +123,22 @@ def check_basis(n, u, v, want_normal=None):
 def gen_direction(rng, ndim):
     if ndim < 3:
         return {"kind": "none"}
-    k = rng.choice(["letter", "letter", "triple", "triple", "vector", "vector", "vector-z0", "near-axis", "basis"])
+    k = rng.choice(["letter", "letter", "triple", "triple", "vector", "vector", "vector-z0", "near-axis", "basis", "axis-vector", "axis-basis"])
+    if k == "axis-vector":
+        # a normal lying exactly along a coordinate axis, either way, given as a Vector
+        v = [0.0, 0.0, 0.0]
+        v[rng.randrange(3)] = rng.choice([1.0, -1.0, 1.0, -1.0, 2.0, -0.5])
+        return {"kind": "vec", "v": v}
+    if k == "axis-basis":
+        # an explicit basis made of coordinate axes with signs (u or v pointing along a negative axis)
+        perm = [0, 1, 2]
+        rng.shuffle(perm)
+        out = {}
+        for name, ax in zip("nuv", perm):
+            w = [0.0, 0.0, 0.0]
+            w[ax] = rng.choice([1.0, -1.0])
+            out[name] = w
+        return dict(out, kind="basis")
     if k == "basis":
         # an explicit orthonormal basis (n, u, v), right- or left-handed, given as a VectorBasis
         import math
